@@ -3,6 +3,9 @@ package main
 import (
 	"fmt"
 	"go/types"
+	"os"
+	"os/exec"
+	"path/filepath"
 	"strings"
 )
 
@@ -131,4 +134,21 @@ func (ri *ReplayInfo) flattenParams(c *Ctx) (*ReplayInfo, func([]string) []strin
 		return out
 	}
 	return &flat, assemble, true
+}
+
+// knownStillReproduces re-runs the recorded replay of a known finding against the
+// real code. If the recorded input no longer fails while the obligation still
+// does not discharge, the failure is a DIFFERENT violation and is reported as such.
+func (r *Report) knownStillReproduces(kf *KnownFinding) bool {
+	if kf.Replay == "" {
+		return true
+	}
+	cmd := exec.Command(filepath.Join(r.verif, "bin", "gvc-replay"), kf.Replay)
+	cmd.Env = append(os.Environ(), "VERIF_REPO="+r.repo)
+	out, err := cmd.CombinedOutput()
+	if err != nil && strings.Contains(string(out), "reproduces on the real code") {
+		return true
+	}
+	fmt.Printf("note: recorded replay %s of known finding %s no longer fails; treating the failed obligation as a new violation\n", kf.Replay, kf.Obligation)
+	return false
 }
